@@ -33,6 +33,8 @@ pub enum Fault {
     FailWrite { k: usize, kind: usize },
     /// accept exactly n bytes in total (shortening the crossing write), then fail
     AcceptThenFail { n: u64, kind: usize },
+    /// accept exactly n bytes (shortening the crossing write), fail ONE call, then work again
+    AcceptThenFailOnce { n: u64, kind: usize },
     /// the k-th write call returns Ok(0)
     ZeroAt { k: usize },
     /// random short writes and Interrupted bursts, never fatal
@@ -65,6 +67,7 @@ pub struct SinkState {
     pub interrupted_run: u32,
     pub record_events: bool,
     pub vectored_calls: u64,
+    pub once_fired: bool,
 }
 
 #[derive(Clone)]
@@ -88,6 +91,7 @@ impl RecSink {
             interrupted_run: 0,
             record_events: true,
             vectored_calls: 0,
+            once_fired: false,
         })))
     }
     pub fn set_seq(&self, seq: u32) {
@@ -122,6 +126,14 @@ impl Write for RecSink {
                     Err(kind)
                 } else {
                     Ok(offered.min((n - at) as usize))
+                }
+            }
+            Fault::AcceptThenFailOnce { n, kind } => {
+                if st.once_fired || at < n {
+                    if st.once_fired { Ok(offered) } else { Ok(offered.min((n - at) as usize)) }
+                } else {
+                    st.once_fired = true;
+                    Err(kind)
                 }
             }
             Fault::ZeroAt { k: fk } => {
